@@ -9,7 +9,7 @@ def main(argv):
     rep = vlib.Report(PID, 'model_checking', argv)
     vlib.build_harness()
     pp.run(rep, PID, common.pipeline_cfgs(rep, 'resub'), modes='ctl-unsafe,ctl-safe' if rep.tier == 'thorough' else 'ctl-unsafe')
-    pp.run(rep, PID, common.pipeline_cfgs(rep, 'reuse'), modes='interleave,multi-apply')
+    pp.run(rep, PID, common.pipeline_cfgs(rep, 'reuse'), modes='interleave,multi-apply,concurrent')
     # multi-source operator forms: one operator VALUE (MergeWith(b), ZipWith(b), TakeUntil(sig), ...) applied to the real source and to a decoy
     parts_multi.run_reuse(rep, PID, rep.tier == 'thorough')
     # re-subscribing operators (Retry, RepeatWith, While, Catch, ConcatWith, ...): one operator value applied to the real source and to a decoy
